@@ -9,7 +9,7 @@ from replay import scenarios
 from replay.native import repo_import
 
 
-def simple_adapter(seed=0, n_sensors=2, k=1, config_kwargs=None):
+def simple_adapter(seed=0, n_sensors=2, k=1, config_kwargs=None, noise_scale=1.0):
     """x' = x + dt*v (+ dt*dt*a), v' = v + dt*a with sensors inserted in NON-alphabetical order."""
     from replay import shim
 
@@ -31,6 +31,10 @@ def simple_adapter(seed=0, n_sensors=2, k=1, config_kwargs=None):
         sensor_models["combined"] = {"c2": 2 * x, "c1": x - v, "c3": 3 * v}
         sensor_noises["combined"] = {"c3": 0.75, "c1": 1.25, "c2": 1.75}
     pn = {a: 1.0} if k == 1 else ({b: 0.25, a: 1.0} if k == 2 else {})
+    if noise_scale != 1.0:
+        # precise sensors / quiet processes: variances far below anything a "keep it well conditioned" clamp would leave alone
+        pn = {c: v * noise_scale for c, v in pn.items()}
+        sensor_noises = {s: {r: v * noise_scale for r, v in m.items()} for s, m in sensor_noises.items()}
     cfg = py.Config(**(config_kwargs or {"innovation_filtering": None}))
     est = py.SklearnEKFAdapter.Create(model, pn, sensor_models, sensor_noises, config=cfg)
     return py, ui, est, {"controls": sorted(c.name for c in control), "sensors": {s: sorted(m) for s, m in sensor_models.items()}}
@@ -83,13 +87,13 @@ def fit_problems(seed=0, rows=8, n_sensors=2, k=1):
     return problems, info
 
 
-def transform_problems(seed=0, rows=5, n_sensors=2, k=1, k_edit=None, integer_data=False, config_extra=None):
+def transform_problems(seed=0, rows=5, n_sensors=2, k=1, k_edit=None, integer_data=False, config_extra=None, noise_scale=1.0):
     """transform / mahalanobis / score vs running the exported filter by hand (predict dt=0.1, sensors in key order).
     integer_data: the same check on a data matrix of INTEGER dtype (a finite data matrix like any other; the by-hand run uses its values as floats)."""
     import math
 
     # config_extra: further Config fields at NON-default values (the adapter's step is fixed, whatever max_dt_sec says)
-    py, ui, est, info = simple_adapter(seed, n_sensors, k, {"innovation_filtering": k_edit, **(config_extra or {})})
+    py, ui, est, info = simple_adapter(seed, n_sensors, k, {"innovation_filtering": k_edit, **(config_extra or {})}, noise_scale=noise_scale)
     X = data_for(info, rows, seed)
     Xin = X
     if integer_data:
